@@ -83,8 +83,17 @@ func checkC14(c caseC14) (sig, msg string) {
 			s := &slotC14{frame: append([]byte(nil), op.Frame...), how: op.Kind, isNew: op.New}
 			var err error
 			var pan *guard.Panic
+			var tail []byte
 			if op.Kind == "unmarshal" {
-				s.retained = append([]byte(nil), body...)
+				// the body is a sub-slice of a larger read buffer: the bytes
+				// behind it (spare capacity) belong to the caller as well
+				big := make([]byte, len(body)+8)
+				copy(big, body)
+				for i := len(body); i < len(big); i++ {
+					big[i] = 0xa5
+				}
+				s.retained = big[:len(body)]
+				tail = big[len(body):]
 				var v mq.ControlPacket
 				if op.New {
 					v = api.NewPacket(int(first >> 4))
@@ -112,6 +121,16 @@ func checkC14(c caseC14) (sig, msg string) {
 			}
 			if pan != nil {
 				return "panic", fmt.Sprintf("step %d decode panicked: %v", step, pan.Value)
+			}
+			if op.Kind == "unmarshal" {
+				if !bytes.Equal(s.retained, body) {
+					return "input-modified", fmt.Sprintf("step %d: UnmarshalBinary modified the bytes it was given: %s -> %s", step, hx(body), hx(s.retained))
+				}
+				for _, b := range tail {
+					if b != 0xa5 {
+						return "wrote-past-input", fmt.Sprintf("step %d: UnmarshalBinary of %s wrote into the caller's buffer behind the slice it was given (spare capacity): %s", step, hx(op.Frame), hx(tail))
+					}
+				}
 			}
 			if err != nil || s.p == nil {
 				if !verify(step, op, -1) {
@@ -175,6 +194,41 @@ func checkC14(c caseC14) (sig, msg string) {
 			}
 			guard.Call(func() { s.snap = api.Observe(s.p) })
 			except = i
+		case "reuse-connect":
+			// decode another CONNECT into a Connect value that is already in
+			// the pool; the will message obtained from it before is a packet
+			// of its own and must stay as it is
+			var target *slotC14
+			ti := -1
+			for k := 0; k < len(pool); k++ {
+				cand := pool[(op.Slot+k)%len(pool)]
+				if cp, ok := cand.p.(*mq.Connect); ok && cp.Will() != nil {
+					target, ti = cand, (op.Slot+k)%len(pool)
+					break
+				}
+			}
+			if target == nil {
+				continue
+			}
+			w := target.p.(*mq.Connect).Will()
+			known := false
+			for _, sl := range pool {
+				if sl.p == mq.ControlPacket(w) {
+					known = true
+				}
+			}
+			if !known {
+				ws := &slotC14{p: w, how: "Will() of a pool CONNECT"}
+				ws.snap = api.Observe(w)
+				ws.first = ws.snap.Clone()
+				pool = append(pool, ws)
+			}
+			if _, _, body, ok := ref.Split(op.Frame); ok {
+				guard.Call(func() { _ = target.p.UnmarshalBinary(append([]byte(nil), body...)) })
+			}
+			guard.Call(func() { target.snap = api.Observe(target.p) })
+			target.frame = nil // what it holds now is not the decode of its first frame
+			except = ti
 		case "redecode":
 			if len(pool) == 0 {
 				continue
@@ -277,6 +331,13 @@ func TestC14(t *testing.T) {
 				if k0 := rapid.IntRange(0, 7).Draw(t, "type0"); k0 == 0 {
 					body := rapid.SliceOfN(rapid.Byte(), 1, 24).Draw(t, "undefined-body")
 					op.Frame = ref.Reframe(byte(rapid.IntRange(0, 15).Draw(t, "nib")), body)
+				} else if k0 == 2 {
+					m := genSpecValid(t, model.CONNECT)
+					if m.Will == nil {
+						m.Will = &model.Will{Topic: "w1", Payload: []byte("p1"), ContentType: "ct1"}
+						m.Normalize()
+					}
+					op.Frame = ref.Canonical(&m)
 				} else if k0 == 1 {
 					// a CONNECT that announces another protocol name / version
 					// (structurally fine; decoded into the constructor's value
@@ -345,6 +406,15 @@ func TestC14(t *testing.T) {
 			default:
 				op.Kind = "redecode"
 				op.Slot = rapid.IntRange(0, 5).Draw(t, "slot")
+				if rapid.IntRange(0, 2).Draw(t, "reuseconnect") == 0 {
+					op.Kind = "reuse-connect"
+					m := genSpecValid(t, model.CONNECT)
+					if m.Will == nil {
+						m.Will = &model.Will{Topic: "w2", Payload: []byte("p2"), QoS: 1, ContentType: "ct2"}
+						m.Normalize()
+					}
+					op.Frame = ref.Canonical(&m)
+				}
 			}
 			kinds = append(kinds, op.Kind)
 			c.Ops = append(c.Ops, op)
